@@ -81,7 +81,7 @@ def judge_sets(net, sd, node):
     return out
 
 
-def judge_fallback(net, sd, node, how):
+def judge_fallback(net, sd, node, how, default_hits=None):
     from biobalm._sd_attractors.attractor_symbolic import symbolic_attractor_fallback
     out = []
     own = own_attractors(net, sd, node)
@@ -106,8 +106,13 @@ def judge_fallback(net, sd, node, how):
             out.append(("fallback-set-is-not-the-attractor-of-its-seed", f"node {node} ({how})"))
     if not out and sorted(got) != sorted(own) and not sd.node_data(node)["skipped"]:
         out.append(("fallback-disagrees-with-node-attractors", f"node {node} ({how}): {len(got)} vs {len(own)}"))
-    if not out and sd.node_data(node)["skipped"] and not set(got) <= set(own):
-        out.append(("fallback-disagrees-with-node-attractors", f"skip node {node} ({how})"))
+    if not out and sd.node_data(node)["skipped"]:
+        if not set(got) <= set(own):
+            out.append(("fallback-disagrees-with-node-attractors", f"skip node {node} ({how})"))
+        elif default_hits is not None and sorted(got) != sorted(default_hits):
+            # a skip node may legitimately leave out what other attractor-free nodes cover, but the fallback must report
+            # the same attractors as the default method does for the node in the same diagram state
+            out.append(("fallback-disagrees-with-default-method", f"skip node {node} ({how}): fallback {len(got)} attractors, default {len(default_hits)}"))
     return out
 
 
@@ -152,8 +157,13 @@ def run_unit(unit):
                             case = {"net": list(spec), "history": [list(x) for x in bops], "node": node, "mode": how}
                             res["evals"] += 1
                             try:
+                                dsd = replay_hist(net, bops)
+                                try:
+                                    dh = [net.attractor_of(net.state_of(x)) for x in dsd.node_attractor_seeds(node, compute=True)]
+                                except RuntimeError:
+                                    dh = None
                                 sd = replay_hist(net, bops)
-                                vs = judge_fallback(net, sd, node, how)
+                                vs = judge_fallback(net, sd, node, how, dh)
                             except CaseTimeout:
                                 raise
                             except Exception as e:
